@@ -2,8 +2,8 @@ package props
 
 import (
 	"errors"
-	"os"
 	"fmt"
+	"os"
 	"reflect"
 	"strings"
 	"testing"
